@@ -306,6 +306,43 @@ def rule_helpers(rep, inst, R="C03.helpers"):
                 else:
                     rep.holds(R, lab, "unused-bit mask", where=d.where(top), detail="low `e` bits for every e in 1..%d" % (W - 1))
 
+    # count(): the byte-wise popcount table and the number of bytes scanned
+    for fn in inst.find("count", "xdynamic_bitset_base")[:1]:
+        lab = "count<%s>" % inst.btype
+        tables = [n for n in ir.walk_expr(fn) if n.get("kind") == "VarDecl" and "[" in ir.qtype(n) and ir.ekids(n)]
+        member_tables = []
+        for n in ir.walk_expr(fn):
+            if n.get("kind") in ("DeclRefExpr", "MemberExpr"):
+                dd = d.by_id.get((n.get("referencedDecl") or {}).get("id") or n.get("referencedMemberDecl"))
+                if dd is not None and dd.get("kind") == "VarDecl" and "[256]" in ir.qtype(dd) and ir.ekids(dd):
+                    member_tables.append(dd)
+        tables = tables or member_tables
+        if not tables:
+            rep.inconclusive(R, lab, "popcount table", where=d.where(fn), detail="no 256-entry table found in count()")
+        else:
+            tv = tables[0]
+            init = ir.strip(ir.ekids(tv)[-1])
+            vals = []
+            for e in ir.ekids(init):
+                try:
+                    vals.append(ceval.ev(e, ceval.Ctx(d)))
+                except (ceval.Unknown, ceval.UB):
+                    vals.append(None)
+            wrong = [i for i, v in enumerate(vals) if v != bin(i).count("1")]
+            if len(vals) != 256:
+                rep.violates(R, lab, "popcount table", where=d.where(tv), detail="the table has %d entries, a byte has 256 values" % len(vals))
+            elif wrong:
+                rep.violates(R, lab, "popcount table", where=d.where(tv), scenario="byte value %d" % wrong[0],
+                             detail="entry %d is %s, the number of set bits of %#04x is %d (%d wrong entries)" % (wrong[0], vals[wrong[0]], wrong[0], bin(wrong[0]).count("1"), len(wrong)))
+            else:
+                rep.holds(R, lab, "popcount table", where=d.where(tv), detail="256 entries = number of set bits of their index")
+        # bytes scanned = block count * sizeof(block)
+        lens = [ir.sx(ir.ekids(n)[-1]) for n in ir.walk_expr(fn) if n.get("kind") == "VarDecl" and n.get("name") in ("length", "len", "nbytes", "n_bytes") and ir.ekids(n)]
+        ok_len = any(t[0] == "bin" and t[1] == "*" and any(x in (("call", ("mem", ("mem", ("this",), "m_buffer"), "size")), ("call", ("mem", ("this",), "block_count"))) for x in t[2:])
+                     and any(x[0] == "sizeof" for x in t[2:]) for t in lens)
+        if lens:
+            (rep.holds if ok_len else rep.violates)(R, lab, "bytes scanned", where=d.where(fn), **({"detail": "block count * sizeof(block_type)"} if ok_len else
+                                                                                          {"detail": "scans `%s` bytes, expected block_count() * sizeof(block_type)" % ir.show(lens[0])}))
     # bit reference proxy: mask construction and the read / write primitives
     refs = [f for c, k, f in inst.fns if c == "xbitset_reference"]
     ctor = [f for f in refs if f.get("kind") == "CXXConstructorDecl" and len(ir.params(f)) == 2]
